@@ -145,6 +145,35 @@ pub proof fn pf_op_token_text(n: &SyntaxNode, c: &SyntaxNode)
     requires tree_wf(n), n.kind_s() == SyntaxKind::Binary, is_child_of(c, n), BinOp::from_kind_s(c.kind_s()) is Some,
     ensures c.text_s() == BinOp::from_kind_s(c.kind_s())->Some_0.as_str_s(), !is_inner_kind(c.kind_s()),
 {}
+/// PF23: a parenthesized expression / pattern has exactly one child that is not a parenthesis, a blank or a comment: its body, which
+/// `expr()` / `pattern()` return
+pub uninterp spec fn paren_body_idx_s(n: &SyntaxNode) -> int;
+#[verifier::external_body]
+pub proof fn pf_parenthesized_body(n: &SyntaxNode)
+    requires tree_wf(n), n.kind_s() == SyntaxKind::Parenthesized,
+    ensures 0 <= paren_body_idx_s(n) < n.children_s().len(),
+        forall|i: int| 0 <= i < n.children_s().len() && i != paren_body_idx_s(n) ==> is_trivia_kind((#[trigger] n.children_s()[i]).kind_s())
+            || n.children_s()[i].kind_s() == SyntaxKind::LeftParen || n.children_s()[i].kind_s() == SyntaxKind::RightParen,
+{}
+/// the words of a parenthesized node without comments are those of its body
+pub proof fn lemma_parenthesized_words(n: &SyntaxNode)
+    requires tree_wf(n), n.kind_s() == SyntaxKind::Parenthesized, !has_comment_child(n.children_s()),
+    ensures sig_leaves(n) =~= sig_leaves(n.children_s()[paren_body_idx_s(n)]),
+{
+    let ch = n.children_s();
+    pf_parenthesized_body(n); pf_children(n); pf_sig(n);
+    let b = paren_body_idx_s(n);
+    reveal_strlit("("); reveal_strlit(")");
+    assert forall|k: int| 0 <= k < ch.len() && !(b <= k < b + 1) implies sig_leaves(#[trigger] ch[k]).len() == 0 by {
+        pf_sig(ch[k]); pf_token_text(ch[k]);
+        assert(!is_comment_kind(ch[k].kind_s()));
+    }
+    lemma_sig_concat_edges(ch, b, b + 1);
+    assert(ch.subrange(b, b + 1) =~= seq![ch[b]]);
+    reveal_with_fuel(sig_concat, 2);
+    assert(seq![ch[b]].drop_last() =~= Seq::<&SyntaxNode>::empty());
+    assert(sig_concat(seq![ch[b]]) =~= sig_leaves(ch[b]));
+}
 /// PF2: leaf texts. A LineComment's text starts with `//` and contains no newline; no other leaf's text starts with `//`
 /// except inside Text/Raw/Str/Link tokens, which the printer emits verbatim; a BlockComment's text starts with `/*`.
 pub open spec fn lc_text(s: Seq<char>) -> bool { is_lc(s) && !has_newline_s(s) }
